@@ -17,15 +17,20 @@ type checkSchema struct {
 	// to control recursion.
 	foundTypeNames map[string]struct{}
 
+	// finishedTypeNames the names of the types which have been completely walked
+	// through (with everything they refer to) while collecting allowedJsonTypes.
+	finishedTypeNames map[string]struct{}
+
 	// allowedJsonTypes the list of available json-types from types.
 	allowedJsonTypes map[json.Type]struct{}
 }
 
 func CheckRootSchema(rootSchema *schema.Schema) {
 	c := checkSchema{
-		rootSchema:       rootSchema,
-		foundTypeNames:   make(map[string]struct{}, 10),
-		allowedJsonTypes: make(map[json.Type]struct{}, 10),
+		rootSchema:        rootSchema,
+		foundTypeNames:    make(map[string]struct{}, 10),
+		finishedTypeNames: make(map[string]struct{}, 10),
+		allowedJsonTypes:  make(map[json.Type]struct{}, 10),
 	}
 
 	if rootSchema.RootNode() != nil { // the root schema may contain no nodes
@@ -197,6 +202,9 @@ func (c *checkSchema) checkLinksOfNode(node schema.Node, ss map[string]schema.Ty
 	for k := range c.foundTypeNames {
 		delete(c.foundTypeNames, k)
 	}
+	for k := range c.finishedTypeNames {
+		delete(c.finishedTypeNames, k)
+	}
 	for k := range c.allowedJsonTypes {
 		delete(c.allowedJsonTypes, k)
 	}
@@ -311,10 +319,16 @@ func (c *checkSchema) collectAllowedJsonTypes(node schema.Node, ss map[string]sc
 		}
 		// foundTypeNames holds the types on the current path only: a type reached
 		// along two different paths (@a | @b where @a itself lists @b) is not a
-		// recursion.
+		// recursion. Such a type is walked through once: its json-types have been
+		// collected already, and it leads back to no type of the current path
+		// (otherwise the first walk through it would have found the recursion).
+		if _, ok := c.finishedTypeNames[typeName]; ok {
+			continue
+		}
 		c.foundTypeNames[typeName] = struct{}{}
 		c.collectAllowedJsonTypes(getType(typeName, c.rootSchema, ss).RootNode(), ss) // can panic
 		delete(c.foundTypeNames, typeName)
+		c.finishedTypeNames[typeName] = struct{}{}
 	}
 }
 
